@@ -134,7 +134,7 @@ class ClassInfo:
 
 
 class Program:
-    def __init__(self, root: str, packages: Tuple[str, ...] = ('proxy',), extra_dirs: Tuple[str, ...] = ()):
+    def __init__(self, root: str, packages: Tuple[str, ...] = ('proxy',), extra_dirs: Tuple[str, ...] = (), inline: bool = True):
         self.root = os.path.abspath(root)
         self.modules: Dict[str, Module] = {}
         self.classes: Dict[str, ClassInfo] = {}
@@ -149,6 +149,10 @@ class Program:
         if not self.modules:
             raise AnalysisError('no python modules found under %s' % self.root)
         self._index()
+        self.inlined_helpers: set = set()
+        if inline:
+            from .inline import Inliner
+            Inliner(self).run()
 
     # ------------------------------------------------------------------ loading
     def _load_tree(self, top: str, pkgname: str, loose: bool = False) -> None:
@@ -426,9 +430,13 @@ class Program:
             raise AnalysisError('anchor module %s not found' % name)
         return self.modules[name]
 
-    def all_functions(self, prefix: str = 'proxy') -> Iterator[FuncInfo]:
+    def all_functions(self, prefix: str = 'proxy', include_inlined: bool = False) -> Iterator[FuncInfo]:
+        """functions of the program; helpers whose bodies were inlined into their callers (sa/inline.py) are skipped
+        unless asked for, because their statements are analysed as part of the callers"""
         for k, f in self.functions.items():
             if f.module.name == prefix or f.module.name.startswith(prefix + '.'):
+                if not include_inlined and f.key in self.inlined_helpers:
+                    continue
                 yield f
 
     # ------------------------------------------------------------------ typing of simple receivers
